@@ -55,12 +55,14 @@ CHECKS = {
  "C19": dict(technique="invariant at a hook (H-heap: live slots after forced full collections, allocator free count vs flags) over allocation patterns with a known live set; slot-vector growth sampling under the natural policy; weak boxes",
              text="Exploration: 12 garbage patterns (acyclic, cycles of length 1..50 through boxes/vectors/struct fields, self-capturing closures, garbage held by a local during a collection, by a dead continuation, by exited threads) at two sizes: live slots after two forced full collections must not grow with the amount of garbage; natural-policy runs of 4*10^6 (quick) / 10^8 (thorough) allocations must keep the slot vectors bounded; a dead weak-box target must report dead.",
              note="'Eventually' = by the second forced full collection after the pattern ended. Liveness is read from the collector's own reachable flags.", ref="DESIGN.md §5 C19"),
+ "C20": dict(technique="runtime monitoring of embedding code: recording host functions, round-trip / range oracles over seeded boundary values by three routes, lent Box freed after the call with a magic-word liveness check, all in a forked child",
+             text="Exploration: ~6 000 observations per quick run: round trips of every supported host type (three routes, plus the value the script sees), ~55 out-of-range / mistyped conversions that must be Err, ~50 calls of 14 registered functions with valid and invalid arity / kinds (direct, apply, map) observed by recording functions, 11 ways for a script to stash a lent reference and use it after the call.",
+             note="Use-after-free of the lent object is observed through a magic word, the recording counter and process death (no ASan). Symbol -> String conversion is pinned as designed.", ref="DESIGN.md §5 C20"),
 }
 NOT_YET = "check not built yet in this session (planned in DESIGN.md §5); no claim is made"
 NA = {
  "C13": "not built: the reference hygienic expander and colliding-macro generator planned in DESIGN_plan.md §5 C13 were not implemented in the time available; the technique applies, no claim is made",
  "C14": "not built: the module-graph generator and visibility model planned in DESIGN_plan.md §5 C14 were not implemented in the time available; no claim is made (module *mode* of single scripts is exercised by C01/C02/C08/C09/C10/C11)",
- "C20": "not built: the Rust-side conversion / registered-function / lent-reference driver planned in DESIGN_plan.md §5 C20 was not implemented in the time available; no claim is made",
 }
 man = {
  "version": 1,
